@@ -110,6 +110,19 @@ def run_check(pid, module, tier, seed, replay=None):
                 knowns.append((full, m['bad'][0], kf[(pid, full)]))
             else:
                 violations.append((full, m['bad'][0]))
+    # a reviewed function vanished without a recognisable successor AND code of unknown helpers was inlined: verdicts about
+    # the functions that received that code rest on a reconstruction that may not be faithful - withheld (check broken)
+    lost = sorted({m_ for f in ctx._facts.values() for m_ in f.normalisation.get('missing_reviewed', [])})
+    if lost:
+        touched = {b.path for f in ctx._facts.values() for b in f.bodies.values() if b.j.get('inlined')}
+        keep_v = []
+        for full, o in violations:
+            fn = (o.where or '').split(' (')[0]
+            if fn in touched or fn.split('::{closure')[0] in touched:
+                ctx.deferred.append('verdict %s withheld: %s was restructured (reviewed function(s) %s no longer exist and helper code was inlined into it)' % (full, fn, lost))
+            else:
+                keep_v.append((full, o))
+        violations = keep_v
     if ctx.deferred and not violations:
         # nothing else is wrong and part of the check could not be carried out: fail closed, as a broken check
         for d in ctx.deferred:
